@@ -159,6 +159,9 @@ REC_ALPHA = [
     {"m": {"k": {}}},
     {"m": {"k": {"v": 1}, "": {"child": {}}}},
     {"v": -1, "child": {"kids": [{"m": {"z": {"v": 5}}}]}},
+    # depth 8 through singular children, and depth 6 alternating containers
+    {"child": {"child": {"child": {"child": {"child": {"child": {"child": {"v": 8}}}}}}}},
+    {"kids": [{"m": {"a": {"child": {"kids": [{"m": {"b": {"v": 6}}}]}}}}]},
 ]
 
 KEY_ALPHA = {
